@@ -181,6 +181,9 @@ def attribution(obj, attr):
     settings = yaqlization.get_yaqlization_settings(obj)
     _validate_name(attr, settings)
     attr = _remap_name(attr, settings)
+    if not isinstance(attr, str):
+        # (name, argument mapping) pair: the argument part is for calls
+        attr = attr[0]
     res = getattr(obj, attr)
     _auto_yaqlize(res, settings)
     return res
